@@ -180,6 +180,7 @@ Ev3(e, k, env) ==
     [] e.t = "euler" -> QInt(EulerNum(e.n))
     [] e.t = "bell" -> QInt(Bell(e.n))
     [] e.t = "primepi" -> QNat(PrimePi(e.n))
+    [] e.t = "isprime" -> QNat(IF IsPrimeN(e.n) THEN 1 ELSE 0)
     [] e.t = "binom" -> QInt(Binom(e.n, e.k))
     [] e.t = "stir1" -> QInt(Stir1(e.n, e.k))
     [] e.t = "stir2" -> QInt(Stir2(e.n, e.k))
